@@ -7,6 +7,7 @@ import NutsProofs.Lemmas.LRem
 import NutsProofs.Lemmas.Isolation
 import NutsProofs.Pins.ListDS
 import NutsProofs.Pins.TxApi
+import NutsProofs.Pins.TxApiList
 namespace NutsProofs.C05
 open Nuts Nuts.Model Nuts.Spec
 
@@ -337,10 +338,11 @@ theorem C05_push_pop_record_is_redis (l : ListDS.St) (r : Rec) (k' : Bytes)
       | none => rw [hl] at hs; simp only at hs; rw [hs]
       | some x => rw [hl] at hs; simp only at hs; exact other _ hs.2.2 hk
 
-/-- **regenerated tie.** On this run, the list calls of the transactional API (validation against the committed list, the key / value encoding of `LSet`, `LRem`, `LTrim`, the flag of each queued record) are the source lines `Nuts.Model.Tx` was written from
-(`NutsProofs.Facts.expectedTxApiStmts`). -/
-theorem C05_tx_api_regenerated : NutsGen.F.txApiStmts = NutsProofs.Facts.expectedTxApiStmts :=
-  NutsProofs.Facts.tx_api_ok
+/-- **regenerated tie.** On this run, the list calls of the transactional API (validation against the committed list, the key / value encoding of `LSet`, `LRem`, `LTrim`, the flag of each queued record) and `tx.put` are the source lines `Nuts.Model.Tx` was written from (`NutsProofs.Facts.expectedTxApiCore`, `expectedTxApiList`). -/
+theorem C05_tx_api_regenerated :
+    NutsProofs.Facts.txApiOfCore = NutsProofs.Facts.expectedTxApiCore ∧
+    NutsProofs.Facts.txApiOfList = NutsProofs.Facts.expectedTxApiList :=
+  ⟨NutsProofs.Facts.tx_api_core_ok, NutsProofs.Facts.tx_api_list_ok⟩
 
 /-- **regenerated tie.** every condition, loop and call of ds/list/list.go is, on this run, the source `Nuts.Model.ListDS` was written from (`NutsProofs.Facts.expectedListStmts`); the index arithmetic of `LRange` / `LSet` / `Ltrim` is additionally regenerated as kernels. -/
 theorem C05_list_statements_regenerated : NutsGen.F.listStmts = NutsProofs.Facts.expectedListStmts :=
